@@ -685,6 +685,9 @@ class KeyPathSet(formatting.Formattable):
     """Returns a KeyPathSet with the given prefix path added."""
     root_path = KeyPath.from_value(root_path)
     root = self._trie
+    if not root:
+      # An empty set has no path to rebase.
+      return
     for key in reversed(root_path.keys):
       root = {key: root}
     self._trie = root
